@@ -53,36 +53,6 @@ def enc (s : String) : String :=
 def toCodes (s : String) : List Nat := s.toList.map Char.toNat
 def ofCodes (cs : List Nat) : String := String.ofList (cs.map Char.ofNat)
 
-partial def skelOf : Sexp → Option Skel
-  | .list [.atom "atom", .atom s] => some (.atom (toCodes (dec s)))
-  | .list [.atom "app", f, a] => do some (.app (← skelOf f) (← skelOf a))
-  | .list [.atom "bin", o, l, r] => do some (.bin (← o.toNat?) (← skelOf l) (← skelOf r))
-  | .list [.atom "un", o, a] => do some (.un (← o.toNat?) (← skelOf a))
-  | .list [.atom "binder", b, .atom x, body] => do some (.binder (← b.toNat?) (toCodes (dec x)) (← skelOf body))
-  | .list [.atom "ite", c, a, b] => do some (.ite (← skelOf c) (← skelOf a) (← skelOf b))
-  | _ => none
-
-partial def skelTo : Skel → Sexp
-  | .atom s => .list [.atom "atom", .atom (enc (ofCodes s))]
-  | .app f a => .list [.atom "app", skelTo f, skelTo a]
-  | .bin o l r => .list [.atom "bin", Sexp.ofNat o, skelTo l, skelTo r]
-  | .un o a => .list [.atom "un", Sexp.ofNat o, skelTo a]
-  | .binder b x body => .list [.atom "binder", Sexp.ofNat b, .atom (enc (ofCodes x)), skelTo body]
-  | .ite c a b => .list [.atom "ite", skelTo c, skelTo a, skelTo b]
-
-def tokTo : Tok → Sexp
-  | .lp => .atom "lp" | .rp => .atom "rp" | .dot => .atom "dot"
-  | .kif => .atom "if" | .kthen => .atom "then" | .kelse => .atom "else"
-  | .sym s => .list [.atom "sym", .atom (enc (Gen.symbols.getD s "?"))]
-  | .id s => .list [.atom "id", .atom (enc (ofCodes s))]
-
-def tokOf : Sexp → Option Tok
-  | .atom "lp" => some .lp | .atom "rp" => some .rp | .atom "dot" => some .dot
-  | .atom "if" => some .kif | .atom "then" => some .kthen | .atom "else" => some .kelse
-  | .list [.atom "sym", .atom s] => some (.sym (Gen.symbols.idxOf (dec s)))
-  | .list [.atom "id", .atom s] => some (.id (toCodes (dec s)))
-  | _ => none
-
 mutual
 partial def tyOf : Sexp → Option Ty
   | .list [.atom "tvar", .atom s] => some (.tvar (toCodes (dec s)))
@@ -106,6 +76,40 @@ partial def tysTo : TyList → List Sexp
   | .cons t ts => tyTo t :: tysTo ts
 end
 
+partial def skelOf : Sexp → Option Skel
+  | .list [.atom "atom", .atom s] => some (.atom (toCodes (dec s)))
+  | .list [.atom "app", f, a] => do some (.app (← skelOf f) (← skelOf a))
+  | .list [.atom "bin", o, l, r] => do some (.bin (← o.toNat?) (← skelOf l) (← skelOf r))
+  | .list [.atom "un", o, a] => do some (.un (← o.toNat?) (← skelOf a))
+  | .list [.atom "binder", b, .atom x, body] => do some (.binder (← b.toNat?) (toCodes (dec x)) (← skelOf body))
+  | .list [.atom "ite", c, a, b] => do some (.ite (← skelOf c) (← skelOf a) (← skelOf b))
+  | .list [.atom "ann", t, ty] => do some (.ann (← skelOf t) (← tyOf ty))
+  | .list [.atom "bindert", b, .atom x, ty, body] => do some (.binderT (← b.toNat?) (toCodes (dec x)) (← tyOf ty) (← skelOf body))
+  | _ => none
+
+partial def skelTo : Skel → Sexp
+  | .atom s => .list [.atom "atom", .atom (enc (ofCodes s))]
+  | .app f a => .list [.atom "app", skelTo f, skelTo a]
+  | .bin o l r => .list [.atom "bin", Sexp.ofNat o, skelTo l, skelTo r]
+  | .un o a => .list [.atom "un", Sexp.ofNat o, skelTo a]
+  | .binder b x body => .list [.atom "binder", Sexp.ofNat b, .atom (enc (ofCodes x)), skelTo body]
+  | .ite c a b => .list [.atom "ite", skelTo c, skelTo a, skelTo b]
+  | .ann t ty => .list [.atom "ann", skelTo t, tyTo ty]
+  | .binderT b x ty body => .list [.atom "bindert", Sexp.ofNat b, .atom (enc (ofCodes x)), tyTo ty, skelTo body]
+
+def tokTo : Tok → Sexp
+  | .lp => .atom "lp" | .rp => .atom "rp" | .dot => .atom "dot"
+  | .kif => .atom "if" | .kthen => .atom "then" | .kelse => .atom "else"
+  | .sym s => .list [.atom "sym", .atom (enc (Gen.symbols.getD s "?"))]
+  | .id s => .list [.atom "id", .atom (enc (ofCodes s))]
+
+def tokOf : Sexp → Option Tok
+  | .atom "lp" => some .lp | .atom "rp" => some .rp | .atom "dot" => some .dot
+  | .atom "if" => some .kif | .atom "then" => some .kthen | .atom "else" => some .kelse
+  | .list [.atom "sym", .atom s] => some (.sym (Gen.symbols.idxOf (dec s)))
+  | .list [.atom "id", .atom s] => some (.id (toCodes (dec s)))
+  | _ => none
+
 partial def pairOf : Sexp → Option InstPair
   | .list [.atom "ty", .atom a, t] => do some (.ty (toCodes (dec a)) (← tyOf t))
   | .list [.atom "tm", .atom x, t] => do some (.tm (toCodes (dec x)) (← skelOf t))
@@ -122,6 +126,8 @@ def namesOKb (S : List (List Nat)) : Skel → Bool
   | .un _ a => namesOKb S a
   | .binder _ x body => NameOK S x && idShaped x && namesOKb S body
   | .ite c a b => namesOKb S c && namesOKb S a && namesOKb S b
+  | .ann t ty => namesOKb S t && ty.namesOKb S
+  | .binderT _ x ty body => NameOK S x && idShaped x && ty.namesOKb S && namesOKb S body
 
 /-! matching a real line-broken text against `printTextW`: is it `printTextW sepB sepF [] t` for SOME
 separators with `SepOK`?  (After a separator the text never begins with whitespace, so the separator
@@ -167,6 +173,17 @@ partial def matchW (uni : Bool) : Skel → List Nat → Option (List Nat)
     let r ← eatPrefix kwElse r
     let r ← eatSepB r
     matchW uni b r
+  | .ann t ty, cs => do
+    let r ← eatPrefix [40] cs
+    let r ← matchW uni t r
+    let r ← eatPrefix (58 :: 58 :: printTyText Gen.ladder.ty Gen.symbolsC uni ty) r
+    eatPrefix [41] r
+  | .binderT b x ty body, cs => do
+    let r ← eatPrefix (binderTxt Gen.table Gen.ladder uni b) cs
+    let r ← eatPrefix x r
+    let r ← eatPrefix (58 :: 58 :: printTyText Gen.ladder.ty Gen.symbolsC uni ty) r
+    let r ← eatPrefix [46, 32] r
+    matchW uni body r
 partial def matchWrap (uni : Bool) (b : Bool) (t : Skel) (cs : List Nat) : Option (List Nat) :=
   if b then do
     let r ← eatPrefix [40] cs
@@ -194,7 +211,7 @@ def handle (line : String) : String :=
     | none => "none"
   | some (.list [.atom "printtext", u, t]) =>
     match u.toBool?, skelOf t with
-    | some uni, some sk => enc (ofCodes (printText Gen.table Gen.ladder uni sk))
+    | some uni, some sk => enc (ofCodes (printText Gen.table Gen.ladder Gen.symbolsC uni sk))
     | _, _ => "bad-op"
   | some (.list [.atom "matchbroken", u, t, .atom s]) =>
     match u.toBool?, skelOf t with
